@@ -6,6 +6,7 @@ package c06
 import (
 	"encoding/json"
 	"fmt"
+	"os"
 	"sort"
 	"strings"
 	"testing"
@@ -337,12 +338,11 @@ func (w *worldA) do(b Bcast) *core.Violation {
 			w.bExpect = append(w.bExpect, p)
 			w.allB = append(w.allB, p)
 		case "mark":
-			id := "0badc0de"
-			if len(w.agents) > 0 {
-				id = fmt.Sprintf("%08x", w.agents[b.N%len(w.agents)])
-			}
-			ts.EventAgentMark(id, "Alive")
-			p := "mark//" + id + "/Alive"
+			// (unique id per operation so that every event of a case is distinguishable)
+			w.tok++
+			id := fmt.Sprintf("%08x", 0x20000000+w.tok)
+			ts.EventAgentMark(id, "Dead")
+			p := "mark//" + id + "/Dead"
 			w.retained = append(w.retained, p)
 			w.bExpect = append(w.bExpect, p)
 			w.allB = append(w.allB, p)
@@ -362,6 +362,12 @@ func (w *worldA) do(b Bcast) *core.Violation {
 				return nil
 			}
 			for i := 0; i < 2; i++ {
+				if i == 1 && len(w.fx.LeakedMutexes(2*time.Millisecond)) > 0 {
+					// the first fan-out left a client mutex locked (C11's finding): a second
+					// one would park B's handler forever, so the barrier chat is not sent
+					wsx.Obs("barrier-chat-skipped:client-mutex-stuck")
+					break
+				}
 				tk := w.token()
 				w.b.SendJSON(wsx.ChatPkg(w.bUser, tk))
 				p := "chat/" + w.bUser + "/" + tk
@@ -460,7 +466,14 @@ func runA(raw json.RawMessage) *core.Violation {
 		return core.V("harness|fixture", "%v", err)
 	}
 	dirty := false
-	defer func() { fx.Release(dirty) }()
+	t0 := time.Now()
+	defer func() {
+		t1 := time.Now()
+		fx.Release(dirty)
+		if os.Getenv("VERIF_WSX_DEBUG") != "" {
+			fmt.Fprintf(os.Stderr, "TIMING %v run=%v release=%v fresh=%v\n", c.Cls, t1.Sub(t0), time.Since(t1), fx.Fresh)
+		}
+	}()
 	w := &worldA{fx: fx, c: c}
 	ts := fx.TS
 	rd := readFirst(append(append([]byte(nil), c.Raw...), []byte(strings.Repeat(" ", c.Pad))...), c.Users)
@@ -496,7 +509,6 @@ func runA(raw json.RawMessage) *core.Violation {
 			exp = append(exp, "!newsession/"+fmt.Sprintf("%08x", id)+"/"+wsx.AgentKeyB64(id))
 		}
 		if v := b.Expect("operator B (setup)", exp, "setup"); v != nil {
-			dirty = true
 			return v
 		}
 		w.retained = append(w.retained, "newuser/"+w.bUser)
@@ -532,12 +544,10 @@ func runA(raw json.RawMessage) *core.Violation {
 				what = fmt.Sprintf("%.120q", fr.Data)
 			}
 		}
-		dirty = true
 		return core.V("leak|"+phase+"|"+leakKind(what), "a socket that has not authenticated (%s) received %q (%d bytes written to it)", phase, what, a.Peer.Written()-w0)
 	}
 	for _, b := range c.Pre {
 		if v := w.do(b); v != nil {
-			dirty = true
 			return v
 		}
 		if a.Peer.Written() != w0 {
@@ -607,7 +617,6 @@ func runA(raw json.RawMessage) *core.Violation {
 		}
 	}
 	if v := <-concDone; v != nil {
-		dirty = true
 		return v
 	}
 
@@ -634,7 +643,6 @@ func runA(raw json.RawMessage) *core.Violation {
 	}
 
 	if accepted && rd.verdict == mustReject {
-		dirty = true
 		return core.V("accepted|"+clsKey(c.Cls), "a first message that does not name an operator with that operator's digest (%s: %s) was answered with Success", c.Cls, rd.why)
 	}
 
@@ -658,7 +666,6 @@ func runA(raw json.RawMessage) *core.Violation {
 			break
 		}
 		if v := w.do(b); v != nil {
-			dirty = true
 			return v
 		}
 	}
@@ -691,7 +698,6 @@ func runA(raw json.RawMessage) *core.Violation {
 
 	if accepted {
 		if rd.verdict == mustReject {
-			dirty = true
 			return core.V("accepted|"+clsKey(c.Cls), "a first message that does not name an operator with that operator's digest (%s: %s) was answered with Success; frames: %v", c.Cls, rd.why, clip(frames))
 		}
 		// Success, then the replay: profile event first, own NewUser, every live session
@@ -700,7 +706,11 @@ func runA(raw json.RawMessage) *core.Violation {
 		for si < len(frames) && frames[si] != "init/success" {
 			si++
 		}
-		if si+1 >= len(frames) || frames[si+1] != "init/profile" {
+		pi := si + 1
+		for pi < len(frames) && frames[pi] != "init/profile" && len(c.Conc) > 0 {
+			pi++ // with broadcasts racing the handshake a live event may sit between Success and the replay
+		}
+		if pi >= len(frames) || frames[pi] != "init/profile" {
 			return core.V("login|replay-does-not-start-with-profile", "frames after a correct login: %v", clip(frames))
 		}
 		have := map[string]bool{}
@@ -735,7 +745,6 @@ func runA(raw json.RawMessage) *core.Violation {
 				phase = "after-refusal"
 			}
 		}
-		dirty = true
 		return core.V("leak|"+phase+"|"+leakKind(f), "a socket whose first message was refused (%s) received %q; all frames: %v", c.Cls, f, clip(frames))
 	}
 	if nerr != 1 {
@@ -761,7 +770,6 @@ func runA(raw json.RawMessage) *core.Violation {
 	}
 	sort.Strings(want.DBAgents)
 	if what, d := want.Diff(s1); what != "" {
-		dirty = true
 		return core.V("state-changed|"+what+"|"+followKinds(c.Follow), "after a refused first message (%s) and follow-ups %v the teamserver's %s changed: %s", c.Cls, c.Follow, what, d)
 	}
 	// and B saw only the harness's own events
